@@ -270,6 +270,7 @@ type M struct {
 	Stats    struct{ Firings, Cfgs, MaxLive int }
 	chanElem  map[Addr]types.Type
 	chanMulti map[Addr]bool
+	advanced bool // vrt.Advance has been executed on some path: timers may be expired from now on
 	EnvLog   []EnvRec
 	EnvOwner map[Addr][2]int // context object -> (thread, occurrence) of the vrt.CancelAnytime call that armed it
 	// MaxPreempt >= 0 bounds the number of preemptions (switching away from a thread that could
@@ -349,6 +350,7 @@ func (m *M) reset() {
 	m.Stats.Firings, m.Stats.Cfgs, m.Stats.MaxLive = 0, 0, 0
 	m.FireLog = nil
 	m.FinalLog = nil
+	m.advanced = false
 	m.EnvOwner = map[Addr][2]int{}
 	m.chanElem = map[Addr]types.Type{}
 	m.chanMulti = map[Addr]bool{}
@@ -518,6 +520,9 @@ func (m *M) step(k int) (err error) {
 		for _, cfg := range m.live[t] {
 			if cfg.Status == stDone || cfg.Status == stPanic || cfg.Status == stParked || (cfg.Status == stStart && cfg.Gate == -1) {
 				continue
+			}
+			if cfg.Status == stStart && cfg.Gate > 0 && !m.advanced {
+				continue // a timer callback cannot start before the first vrt.Advance
 			}
 			if sole == -1 || sole == t {
 				sole = t
